@@ -17,16 +17,19 @@ ENCODED = ["twisted.internet.base:_ThreePhaseEvent.addTrigger", "twisted.interne
            "twisted.internet.base:_ThreePhaseEvent._continueFiring",
            "twisted.internet.defer:DeferredList.__init__", "twisted.internet.defer:DeferredList._cbDeferred",
            "twisted.logger._logger:_FastFailCtxMgr.__exit__"]
-BOUNDS = {"quick": {"n": 4, "nf": 4, "rm": 2}, "thorough": {"n": 6, "nf": 5, "rm": 2}}
+BOUNDS = {"quick": {"n": 4, "nf": 4, "rm": 2, "nd": 3}, "thorough": {"n": 6, "nf": 5, "rm": 2, "nd": 4}}
 B = {}
 BOUNDS_TEXT = ("exactly n (fire_order: nf) registrations on a fresh _ThreePhaseEvent, each with a symbolic phase "
                "(so every split of the triggers over the three phases, empty phases included); fire_order: every before-trigger returns None or an unfired "
                "Deferred, one symbolic trigger raises, the Deferreds are fired in every order (first one "
                "optionally with a failure); remove_before: <= rm removals by symbolic handle index before firing "
                "(double removal included); remove_during: one removal of a symbolic handle from inside a symbolic "
-               "trigger or from outside while the before-Deferreds are pending, with and without Deferreds")
-OUTSIDE = ["more than n triggers per event; triggers added while the event fires; the same callable+arguments "
-           "registered twice (handles are compared by value)",
+               "trigger or from outside while the before-Deferreds are pending, with and without Deferreds; "
+               "duplicates: nd registrations of the same callable with a symbolic argument out of two (so identical "
+               "(callable, args) pairs occur within a phase), <= rm removals by handle")
+OUTSIDE = ["more than n triggers per event; triggers added while the event fires; identical "
+           "registrations combined with Deferreds / raising triggers / removal while firing (identical "
+           "registrations are covered for registration, removal before firing and firing order: duplicates)",
            "combinations of several raising triggers with several removals in one firing (each dimension is "
            "exhaustive on its own, pairs only as listed in the bounds)",
            "the reactor level wrappers addSystemEventTrigger/fireSystemEvent (the _ThreePhaseEvent is driven "
@@ -221,6 +224,66 @@ def remove_before(phases: List[int], rm: List[int]) -> bool:
     return _empty(ev) and _LOGGED == []
 
 
+# ---------------------------------------------------------------- identical registrations
+
+def duplicates(phases: List[int], args: List[int], rm: List[int]) -> bool:
+    """
+    pre: len(phases) == B['nd'] and len(args) == B['nd']
+    pre: len(rm) <= B['rm']
+    post: _
+    """
+    # every registration uses the SAME callable; registrations with the same phase and argument are identical
+    # (callable, args, kwargs) triples.  Each one is an independent registration: it runs once per registration,
+    # and a handle removes exactly one of the equal entries (list.remove: the earliest one); removing more often
+    # than registered raises ValueError.
+    n = B['nd']
+    ev = _ThreePhaseEvent()
+    log = []
+    handles = []
+    exp = [[], [], []]
+    del _LOGGED[:]
+    for i in range(n):
+        p = phases[i]
+        a = args[i]
+        if p < 0 or p > 2 or a < 0 or a > 1:
+            return True                                   # not a phase / argument code: pruned
+        pc = 0 if p == 0 else 1 if p == 1 else 2
+        g = 0 if a == 0 else 1
+        handles.append(ev.addTrigger(PH[pc], log.append, g))
+        exp[pc].append(g)
+        if handles[-1] != (PH[pc], log.append, (g,), {}):
+            return _fail("handle")
+    if [t[1][0] for t in ev.before] != exp[0] or [t[1][0] for t in ev.during] != exp[1] or \
+            [t[1][0] for t in ev.after] != exp[2]:
+        return _fail("registrations %r %r %r, expected %r" % (ev.before, ev.during, ev.after, exp))
+    for r in rm:
+        rr = None
+        for c in range(n):
+            if r == c:
+                rr = c
+                break
+        if rr is None:
+            return True                                   # not a handle index: pruned
+        p = phases[rr]
+        pc = 0 if p == 0 else 1 if p == 1 else 2
+        g = 0 if args[rr] == 0 else 1
+        try:
+            ev.removeTrigger(handles[rr])
+            raised = False
+        except ValueError:
+            raised = True
+        if raised != (g not in exp[pc]):
+            return _fail("removeTrigger raised=%r for handle %d, remaining %r" % (raised, rr, exp))
+        if not raised:
+            exp[pc].remove(g)                             # one registration less, the earliest equal one
+    full = exp[0] + exp[1] + exp[2]
+    ev.fireEvent()
+    cover()
+    if log != full:
+        return _fail("ran %r, expected %r" % (log, full))
+    return _empty(ev) and _LOGGED == []
+
+
 # ---------------------------------------------------------------- removal while the event fires
 
 def remove_during(phases: List[int], when: int, target: int, withd: bool) -> bool:
@@ -344,6 +407,9 @@ HARNESSES = [
                                           [(c, "withd == %s" % w) for c in _first_two("phases", range(3))
                                            for w in (True, False)]),
       timeout={"quick": 120, "thorough": 1200}),
+    H(duplicates, shards=lambda tier: [("phases[0] == 0",), ("phases[0] == 1",), ("phases[0] == 2",),
+                                       ("phases[0] < 0 or phases[0] > 2",)],
+      timeout={"quick": 120, "thorough": 1200}),
 ]
 
 # Vectors are written for 4 triggers and padded to the current tier's bounds when the runner reads them
@@ -358,6 +424,10 @@ _V4 = {
 }
 
 
+_V3D = [([0, 0, 0], [1, 1, 1], [2, 0]), ([1, 1, 2], [0, 0, 0], [0, 0]), ([0, 1, 0], [0, 1, 0], [2]),
+        ([2, 2, 2], [0, 1, 0], [2, 1]), ([1, 1, 1], [0, 0, 1], [])]
+
+
 class _Vectors(dict):
     def items(self):
         b = B or BOUNDS["quick"]
@@ -367,6 +437,7 @@ class _Vectors(dict):
                            for k, r, f, ff in _V4["fire_order"]],
             "remove_before": [(p + [2] * (n - 4), rm) for p, rm in _V4["remove_before"]],
             "remove_during": [(p + [2] * (n - 4), n if w == 4 else w, t, d) for p, w, t, d in _V4["remove_during"]],
+            "duplicates": [(p + [2] * (b["nd"] - 3), a + [0] * (b["nd"] - 3), rm) for p, a, rm in _V3D],
         }
         return out.items()
 
